@@ -140,19 +140,24 @@ static void case_pca(vh_ctx *c)
   int kind, scaling = (int)vh_int(c, -1, 5);
   double pert;
   ldm *X = degenerate(c, n, p, r, &kind, &pert), *T;
-  matrix *mx = matrix_of_ldm(X);
+  matrix *mx;
   PCAMODEL *m;
+  /* finite but extreme magnitudes: sums of squares overflow (or underflow to 0); nothing but termination is demanded there */
+  int extreme = vh_coin(c, 0.06) ? (vh_coin(c, 0.5) ? 1 : -1) : 0;
+  if (extreme) { ld f = extreme > 0 ? 1e160L : 1e-170L; for (i = 0; i < n * p; i++) X->a[i] = (ld)(double)((X->a[i] + (ld)(i % 7 + 1)) * f); }
+  mx = matrix_of_ldm(X);
   npc = (size_t)vh_int(c, 1, (long)p + 2);
   rk = pre_rank(X, scaling, &T);
-  snprintf(g_inclass, sizeof g_inclass, "%s%s", kname(kind), pert > 0 ? "+perturbed" : "");
+  snprintf(g_inclass, sizeof g_inclass, "%s%s%s", kname(kind), pert > 0 ? "+perturbed" : "", extreme > 0 ? "+overflow-magnitude" : extreme < 0 ? "+underflow-magnitude" : "");
   vh_class(c, "PCA-%s-sc%d-%s-%s", g_inclass, scaling, npc > rk ? "npc>rank" : "npc<=rank", rk == 0 ? "rank0" : rk < mn ? "deficient" : "full");
   vh_desc(c, "PCA rows=%zu cols=%zu built_rank=%zu numerical_rank=%zu kind=%s perturb=%g scaling=%d npc=%zu x00=%.17g", n, p, r, rk, kname(kind), pert, scaling, npc, mx->data[0][0]);
-  if (scale_in_guard_band(X, scaling)) { vh_skip(c, "scaling value between the zero guards"); goto out; }
+  if (!extreme && scale_in_guard_band(X, scaling)) { vh_skip(c, "scaling value between the zero guards"); goto out; }
   NewPCAModel(&m);
   arm("PCA", 0);
   PCA(mx, scaling, npc, m, NULL);
   disarm();
   vh_obs("returned_PCA", 1);
+  if (extreme) { vh_obs("returned_extreme_magnitude", 1); DelPCAModel(&m); goto out; }
   ldm_free(T);
   rk = model_rank(X, m->colaverage, m->colscaling, &T);
   {
@@ -188,7 +193,7 @@ out:
 static void case_pls(vh_ctx *c)
 {
   size_t n = (size_t)vh_int(c, 3, 12), p = (size_t)vh_int(c, 1, 6), ny = (size_t)vh_int(c, 1, 3), mn = n < p ? n : p, r = (size_t)vh_int(c, 0, (long)mn), i, j, k, nlv, rk;
-  int kind, xs = (int)vh_int(c, -1, 5), ys = (int)vh_int(c, -1, 5), ykind = (int)vh_int(c, 0, 3);
+  int kind, xs = (int)vh_int(c, -1, 5), ys = (int)vh_int(c, -1, 5), ykind = (int)vh_int(c, 0, 3), extreme = 0;
   double pert;
   ldm *X = degenerate(c, n, p, r, &kind, &pert), *T;
   matrix *mx = matrix_of_ldm(X), *my;
@@ -206,20 +211,26 @@ static void case_pls(vh_ctx *c)
   }
   nlv = (size_t)vh_int(c, 1, (long)p + 2);
   rk = pre_rank(X, xs, &T);
-  snprintf(g_inclass, sizeof g_inclass, "%s-%s%s", kname(kind), yk[ykind], pert > 0 ? "+perturbed" : "");
+  if (vh_coin(c, 0.06)) {   /* finite but extreme magnitudes: only termination is demanded */
+    double f = vh_coin(c, 0.5) ? 1e160 : 1e-170;
+    extreme = f > 1 ? 1 : -1;
+    for (i = 0; i < n; i++) { for (j = 0; j < p; j++) mx->data[i][j] = (mx->data[i][j] + (double)((i + j) % 5 + 1)) * f; if (vh_coin(c, 0.5)) for (j = 0; j < ny; j++) my->data[i][j] = (my->data[i][j] + (double)(i % 3)) * f; }
+  }
+  snprintf(g_inclass, sizeof g_inclass, "%s-%s%s%s", kname(kind), yk[ykind], pert > 0 ? "+perturbed" : "", extreme > 0 ? "+overflow-magnitude" : extreme < 0 ? "+underflow-magnitude" : "");
   vh_class(c, "PLS-%s-xs%d-ys%d-%s", g_inclass, xs, ys, nlv > rk ? "nlv>rank" : "nlv<=rank");
   vh_desc(c, "PLS rows=%zu cols=%zu ny=%zu built_rank=%zu numerical_rank=%zu kind=%s ykind=%s perturb=%g xscaling=%d yscaling=%d nlv=%zu", n, p, ny, r, rk, kname(kind), yk[ykind], pert, xs, ys, nlv);
   {
     ldm *Y = ldm_of_matrix(my);
     int bad = scale_in_guard_band(X, xs) || scale_in_guard_band(Y, ys);
     ldm_free(Y);
-    if (bad) { vh_skip(c, "scaling value between the zero guards"); goto out; }
+    if (bad && !extreme) { vh_skip(c, "scaling value between the zero guards"); goto out; }
   }
   NewPLSModel(&m);
   arm("PLS", 0);
   PLS(mx, my, nlv, xs, ys, m, NULL);
   disarm();
   vh_obs("returned_PLS", 1);
+  if (extreme) { vh_obs("returned_extreme_magnitude", 1); DelPLSModel(&m); goto out; }
   ldm_free(T);
   rk = model_rank(X, m->xcolaverage, m->xcolscaling, &T);
   {
@@ -287,11 +298,37 @@ static void case_cpca(vh_ctx *c)
   CPCA(t, scaling, npc, m);
   disarm();
   vh_obs("returned_CPCA", 1);
-  for (i = 0; i < m->total_expvar->size; i++) {
-    double ve = m->total_expvar->data[i];
-    if (ve != ve && i == 0 && !anyconst) vh_fail(c, "CPCA|total-expvar-NaN-first-component", "total_expvar[0] is NaN");
+  {
+    /* the matrix CPCA decomposes: blocks preprocessed with the stored statistics, divided by sqrt(width), concatenated */
+    size_t wtot = 0, off = 0, rz, k;
+    ldm *Z;
+    for (b = 0; b < nb; b++) wtot += t->m[b]->col;
+    Z = ldm_new(n, wtot);
+    for (b = 0; b < nb; b++) {
+      dvector *avg = b < m->colaverage->size ? m->colaverage->d[b] : NULL, *scl = b < m->colscaling->size ? m->colscaling->d[b] : NULL;
+      for (j = 0; j < t->m[b]->col; j++) {
+        ld a = (avg && j < avg->size) ? (ld)avg->data[j] : 0, sc = (scl && j < scl->size) ? (ld)scl->data[j] : 1;
+        for (i = 0; i < n; i++) LM(Z, i, off + j) = (fabsl(sc) < 1e-3L) ? 0 : ((ld)(double)(t->m[b]->data[i][j] - (double)a)) / sc / sqrtl((ld)t->m[b]->col);
+      }
+      off += t->m[b]->col;
+    }
+    rz = or_rank(Z, 1e-9L);
+    ldm_free(Z);
+    vh_desc(c, " numerical_rank_of_concatenation=%zu", rz);
+    for (k = 0; k < m->total_expvar->size; k++) {
+      double ve = m->total_expvar->data[k];
+      if (ve != ve) { vh_fail(c, k < rz ? "CPCA|total-expvar-NaN-defined-component" : "CPCA|total-expvar-NaN-beyond-rank", "total_expvar[%zu] is NaN (rank of the concatenation %zu, constant block %d)", k, rz, anyconst); break; }
+    }
+    for (k = 0; k < rz && k < m->super_scores->col && k < m->total_expvar->size; k++) {
+      int fin = 1; ld tt = 0;
+      for (i = 0; i < n; i++) { if (!isfinite(m->super_scores->data[i][k])) fin = 0; tt += (ld)m->super_scores->data[i][k] * m->super_scores->data[i][k]; }
+      if (!fin) { vh_fail(c, anyconst ? "CPCA|non-finite-defined-component|constant-block" : "CPCA|non-finite-defined-component", "super score %zu is not finite although the concatenation has rank %zu", k, rz); break; }
+    }
+    for (k = 0; k < m->block_expvar->size; k++) for (b = 0; b < m->block_expvar->d[k]->size; b++) {
+      double v = m->block_expvar->d[k]->data[b];
+      if (v != v) { vh_fail(c, "CPCA|block-expvar-NaN", "block_expvar[%zu][%zu] is NaN", k, b); k = m->block_expvar->size; break; }
+    }
   }
-  (void)j;
   DelCPCAModel(&m);
   DelTensor(&t);
 }
